@@ -1,5 +1,6 @@
 import NetaddrVerif.Model.Proto
 import NetaddrVerif.Model.IPSet
+import NetaddrVerif.Model.IPSetText
 /-!
 Driver ops of C06/C07: one line = one history over several live sets.
 `ipset <op>;<op>;…`, fields of an op separated by `,`:
@@ -10,7 +11,12 @@ Driver ops of C06/C07: one line = one history over several live sets.
   q,i,j,N:…                     (queries on sets i, j and membership of the network)
 Observation per op: mutators print the touched set as `sorted(self._cidrs)` at value level
 (`ver:value/plen`); `q` prints
-  eq subset superset lt gt disjoint size len contiguous iprange ipranges in iter
+  eq subset superset lt gt disjoint size len contiguous iprange ipranges in iter ne le ge bool repr
+Every column of a `q` row but the last is one `IPSet.QOp` evaluated by `IPSet.runQs` (the store of
+live sets is threaded through the queries; `C07.queries_pure` says it comes back unchanged and
+that every answer is `IPSet.evalQ` on it) with `IPSet.evalQFast` (= `IPSet.evalQ`,
+`C07.driver_eval_eq`).  `iter` is `IPSet.iterAddrs` (only asked for when `size ≤ 64`); the last
+column is the text `IPSet.reprText` (Model/IPSetText.lean, `C06.repr_text_eq_iff`).
 -/
 namespace NV.Driver.C06
 open NV NV.Proto NV.IPSet
@@ -24,25 +30,34 @@ def showSet (s : St) : String := showList ((iterCidrs s).map showNet)
 
 def showVR (r : VR) : String := s!"{r.1}:{r.2.1}-{r.2.2}"
 
-/-- all addresses in iteration order when the set is small, `-` otherwise -/
-def showIter (s : St) : String :=
-  if size s ≤ 64 then
-    showList ((iterCidrs s).flatMap (fun c =>
-      (List.range (c.last - c.first + 1)).map (fun i => s!"{c.ver}:{c.first + i}")))
-  else "-"
-
 def maxint : Nat := 2 ^ 63 - 1
 
-def query (a b : St) (n : Net) : String :=
-  let lenS := match len maxint a with | .ok v => toString v | .error e => showErr e
-  let ipr := match iprange a with
-    | .ok none => "-"
-    | .ok (some r) => s!"{r.ver}:{r.lo}-{r.hi}"
-    | .error e => showErr e
-  " ".intercalate [showBool (IPSet.eq a b), showBool (issubset a b), showBool (issuperset a b),
-    showBool (IPSet.lt a b), showBool (IPSet.gt a b), showBool (isdisjoint a b), toString (size a), lenS,
-    showBool (iscontiguous a), ipr, showList ((iterIpranges a).map showVR), showBool (contains a n),
-    showIter a]
+/-- one query outcome as a protocol token -/
+def showQ : R QVal → String
+  | .ok (.bool b) => showBool b
+  | .ok (.nat n) => toString n
+  | .ok (.rng none) => "-"
+  | .ok (.rng (some r)) => s!"{r.ver}:{r.lo}-{r.hi}"
+  | .ok (.ranges l) => showList (l.map showVR)
+  | .ok (.addrs l) => showList (l.map (fun x => s!"{x.1}:{x.2}"))
+  | .ok (.cidrs l) => showList (l.map showNet)
+  | .error e => showErr e
+
+/-- the query row on sets `i`, `j` of the store and the network `n`: the store after the row and
+    the row.  Address iteration is only asked for on small sets (`-` otherwise). -/
+def queryRow (sets : Store) (i j : Nat) (n : Net) : Store × String :=
+  let small := size (getSet sets i) ≤ 64
+  let (sets1, r1) := runQs maxint sets
+    [.eq i j, .issubset i j, .issuperset i j, .lt i j, .gt i j, .isdisjoint i j, .size i, .len i,
+     .iscontiguous i, .iprange i, .iterIpranges i, .contains i n]
+  let (sets2, r2) := if small then runQs maxint sets1 [.iter i] else (sets1, [])
+  let (sets3, r3) := runQs maxint sets2 [.ne i j, .le i j, .ge i j, .nonzero i]
+  let it := match r2 with | [r] => showQ r | _ => "-"
+  (sets3, " ".intercalate (r1.map showQ ++ [it] ++ r3.map showQ ++
+    [showStr (reprText .platform (getSet sets3 i))]))
+
+/-- the row for two sets given directly (used by `ipset_raw`, Driver/Coerce.lean) -/
+def query (a b : St) (n : Net) : String := (queryRow [a, b] 0 1 n).2
 
 def parseOp (fields : List String) : Option Op :=
   match fields with
@@ -73,7 +88,7 @@ def step (sets : List St) (fields : List String) : Option (List St × String) :=
   match fields with
   | ["q", i, j, n] => do
     let i ← i.toNat?; let j ← j.toNat?; let n ← parseNet n
-    pure (sets, query (getSet sets i) (getSet sets j) n)
+    pure (queryRow sets i j n)
   | _ => do
     let op ← parseOp fields
     let (sets', touched, err) := stepOp sets op
